@@ -155,21 +155,34 @@ s1 = {S1}; s2 = {S2}
 tree = PIPE.parse(TEXT, {{'"H1"': '"' + s1 + '"', "'H2'": "'" + s2 + "'"}})
 d = M.transform(tree)
 lines = PP._format(d)
-return d["include"] == [s1, s2] and d["layers"][0]["include"] == [s2] and lines == [
-    "MAP", '    INCLUDE "' + s1 + '"', '    INCLUDE "' + s2 + '"', '    NAME "x"', "    LAYER", '        INCLUDE "' + s2 + '"', "    END", "END"]
+ok = d["include"] == [s1, s2] and d["layers"][0]["include"] == [s2] and d["symbols"][0]["include"] == [s1]
+ok = ok and d["layers"][0]["classes"][0]["include"] == ["inc_class.map"] and d["layers"][0]["classes"][0]["styles"][0]["include"] == ["inc_style.map"]
+return ok and lines == [
+    "MAP", '    INCLUDE "' + s1 + '"', '    INCLUDE "' + s2 + '"', '    NAME "x"', "    LAYER", '        INCLUDE "' + s2 + '"', "        CLASS", '            INCLUDE "inc_class.map"',
+    "            STYLE", '                INCLUDE "inc_style.map"', "            END", "        END", "    END", "    SYMBOL", '        INCLUDE "' + s1 + '"', '        NAME "s"', "    END", "END"]
 '''
 
 KEEP_PRE = '''
 from mappyfile.transformer import MapfileToDict
 M = MapfileToDict()
 PIPE = tsp.pipe(expand_includes=False)       # built at import time, outside tracing
-PP = tsp.printer(["map", "layer"], indent=4, quote='"')
+PP = tsp.printer(tsp.ALL_TYPES, indent=4, quote='"')
 TEXT = """MAP
   INCLUDE "H1"
   include 'H2'
   NAME "x"
   LAYER
     INCLUDE 'H2'
+    CLASS
+      include "inc_class.map"
+      STYLE
+        INCLUDE "inc_style.map"
+      END
+    END
+  END
+  SYMBOL
+    INCLUDE "H1"
+    NAME "s"
   END
 END"""
 
